@@ -1,7 +1,7 @@
 (* C16 - progress relies only on wakeups; spurious polls have no effect.
    Partial: waker registration inside oneshot, mpsc, select! and compiler-generated futures is
    assumed; the theorems cover the library's own poll logic as modelled. *)
-From Poster Require Import Model.Client Proofs.ClientP Proofs.FramingP.
+From Poster Require Import Model.Sim Proofs.ClientP Proofs.FramingP Proofs.FramingMainP Proofs.SimInvP Proofs.SettleP.
 
 (* polling an operation whose oneshot is still empty changes nothing and reports Pending *)
 Theorem C16_spurious_op : forall (s : sys) (i : N) (o : op),
@@ -34,3 +34,56 @@ Theorem C16_spurious_ctx : forall (fuel : nat) (x : rx) (rd : reader) (x' : rx) 
   forall n : nat, fpoll (S n) x' rd' = (FPending, x', rd').
 Proof. exact fpoll_pending_idempotent. Qed.
 Print Assumptions C16_spurious_ctx.
+
+(* ---- the Context task as a whole, over every reachable state ---------------------------------------------------------------
+   settle (Model/Client.v) polls the Context task (connect()/authorize() or run()) until it returns Pending or
+   finishes; the model runs it after every event that can wake the task. SettleP.Stopped: the task is not running
+   (CIdle), or it is asleep in connect() with the transport's last answer Pending, or asleep in run() with the request
+   queue empty, a handle still alive and the transport's last answer Pending. *)
+Check (eq_refl : Stopped = fun s =>
+  match cph s with CIdle => True | CConnecting => AsleepConn s | CRunning => Asleep s end).
+Check (eq_refl : Asleep = fun s =>
+  msgq s = [] /\ live_senders s <> 0 /\ exists fuel x r, fpoll fuel x r = (FPending, fr s, rd s)).
+Check (eq_refl : AsleepConn = fun s => exists fuel x r, fpoll fuel x r = (FPending, fr s, rd s)).
+
+(* the run loop returns Pending only when there is nothing left it could do: the loop of the model never ends because
+   its fuel ran out, it ends because the task stopped. (FInv: framing invariant of C03/C04; SZs: the bytes the framing
+   layer holds are in the buffer proper; both hold in every reachable state, C16_reachable.) *)
+Theorem C16_pending_only_when_idle : forall s : sys, FInv s -> SZs s -> Stopped (settle_loop (settle_fuel s) s).
+Proof. exact settle_loop_adequate. Qed.
+Print Assumptions C16_pending_only_when_idle.
+
+(* and what "asleep in run()" means for wakeups: every byte delivered has been consumed, the transport has not ended
+   (its poll_read returned Pending, which registered the waker: C16_pending_has_waker), no request is queued (the
+   channel's poll_next returned Pending, which registered the waker) *)
+Theorem C16_asleep_registered : forall s : sys, Asleep s ->
+  msgq s = [] /\ segs (rd s) = [] /\ r_eof (rd s) = false /\ r_err (rd s) = false /\ fstate (fr s) = Idle.
+Proof.
+  intros s (Hq & _ & fuel & x & r & Hp). destruct (fpoll_pending_registered _ _ _ _ _ Hp) as (H1 & H2 & H3 & H4). auto.
+Qed.
+Print Assumptions C16_asleep_registered.
+
+(* polling a stopped Context task again - any number of times - changes nothing: no byte read or written, no request
+   taken, nothing completed *)
+Theorem C16_stopped_fix : forall s : sys, Stopped s -> forall n : nat, settle_loop n s = s.
+Proof. exact stopped_fix. Qed.
+Print Assumptions C16_stopped_fix.
+Theorem C16_spurious_context_poll : forall s : sys, FInv s -> SZs s -> settle (settle s) = settle s.
+Proof. exact settle_idempotent. Qed.
+Print Assumptions C16_spurious_context_poll.
+
+(* every state reachable from the initial one by script events satisfies both invariants *)
+Theorem C16_reachable : forall evs : list event, Forall ev_ok evs ->
+  let s := final_state sys_init evs in FInv s /\ SZs s /\ settle (settle s) = settle s.
+Proof.
+  intros evs H. cbv zeta. destruct (reachable_settled evs H sys_init FInv_init SZs_init) as [HF Hs].
+  split; [exact HF|]. split; [exact Hs|]. apply settle_idempotent; assumption.
+Qed.
+Print Assumptions C16_reachable.
+
+(* a state asleep in run() exists: after CONNACK and run() with one handle alive *)
+Example C16_nonvacuous :
+  let s := final_state sys_init [EConnect (Build_connect_opts [99] 0 None None None None None None None None [] 0 false false
+                         None None None None None None [] None None None None); EDeliver [32; 3; 0; 0; 0]; ERun] in
+  cph s = CRunning /\ msgq s = [] /\ live_senders s = 1 /\ settle s = s.
+Proof. vm_compute. auto. Qed.
